@@ -80,26 +80,25 @@ def _parse_call(msg: str, fn):
     return out
 
 
-def main():
-    modname, fnname, case, timeout, floatmodel = sys.argv[1:6]
-    exclusions = json.loads(sys.argv[6]) if len(sys.argv) > 6 else []
-    os.environ["VF_CASE"] = case
-    os.environ["VF_FLOAT"] = floatmodel
-    t_wall = time.time()
-    from vf import boot  # noqa: applies symbolic bootstrap
-
+def _analyze_one(modname, fnname, case, timeout, floatmodel, exclusions, first):
+    from vf import boot
     import crosshair.core as core
     from crosshair.core_and_libs import analyze_function, run_checkables
     from crosshair.options import AnalysisOptionSet, AnalysisKind
-    from crosshair.tracers import TracingModule, COMPOSITE_TRACER, PushedModule
+    from crosshair.tracers import TracingModule, COMPOSITE_TRACER
     import dis
 
-    mod = importlib.import_module(modname)
+    os.environ["VF_CASE"] = str(case)
+    t_wall = time.time()
+    boot._NOTES.clear()
+    if modname in sys.modules and not first:
+        mod = importlib.reload(sys.modules[modname])
+    else:
+        mod = importlib.import_module(modname)
     fn = getattr(mod, fnname)
     if exclusions:
         doc = fn.__doc__ or ""
         lines = doc.split("\n")
-        # insert extra preconditions before the first 'post:' line
         idx = next((k for k, l in enumerate(lines) if l.strip().startswith("post:")), len(lines))
         extra = ["    pre: not (%s)" % e for e in exclusions]
         fn.__doc__ = "\n".join(lines[:idx] + extra + lines[idx:])
@@ -121,7 +120,6 @@ def main():
         )
         return res
 
-    core.analyze_calltree = _wrapped
     _odebug = core.debug
 
     def _debug(*a):
@@ -129,9 +127,6 @@ def main():
             exh.append(a[0])
         return _odebug(*a)
 
-    core.debug = _debug
-
-    # which nrel.hive code objects are entered while tracing
     seen_codes = set()
 
     class _Cov(TracingModule):
@@ -144,12 +139,14 @@ def main():
         def trace_op(self, frame, codeobj, opcodenum):
             seen_codes.add(frame.f_code)
 
+    cov = _Cov()
     cov_ok = True
+    core.analyze_calltree = _wrapped
+    core.debug = _debug
     try:
-        COMPOSITE_TRACER.push_module(_Cov())
+        COMPOSITE_TRACER.push_module(cov)
     except Exception:
         cov_ok = False
-
     opts = AnalysisOptionSet(
         per_condition_timeout=float(timeout),
         analysis_kind=[AnalysisKind.PEP316],
@@ -163,6 +160,14 @@ def main():
             msgs.append({"state": m.state.name, "message": m.message[:2000], "line": m.line})
     except BaseException as e:  # noqa
         err = "".join(traceback.format_exception_only(type(e), e))[:2000]
+    finally:
+        core.analyze_calltree = _orig
+        core.debug = _odebug
+        if cov_ok:
+            try:
+                COMPOSITE_TRACER.pop_config(cov)
+            except Exception:
+                pass
 
     rec = records[-1] if records else {"status": "UNKNOWN", "paths": 0, "confirmed_paths": 0, "cpu_s": 0.0}
     cex = None
@@ -201,6 +206,19 @@ def main():
     )
     sys.stdout.write("\nVFRESULT " + json.dumps(out) + "\n")
     sys.stdout.flush()
+
+
+def main():
+    modname, fnname, cases, timeout, floatmodel = sys.argv[1:6]
+    exclusions = json.loads(sys.argv[6]) if len(sys.argv) > 6 else []
+    os.environ["VF_FLOAT"] = floatmodel
+    first = True
+    for case in cases.split(","):
+        os.environ["VF_CASE"] = case
+        if first:
+            from vf import boot  # noqa: applies symbolic bootstrap
+        _analyze_one(modname, fnname, int(case), timeout, floatmodel, exclusions, first)
+        first = False
 
 
 if __name__ == "__main__":
